@@ -183,10 +183,13 @@ impl Backend {
 
         // Each dependency is an outgoing call
         for dep_name in &definition.dependencies {
-            // Resolve the dependency to its definition
-            if let Some(dep_def) = self
-                .fixture_db
-                .resolve_fixture_for_file(&file_path, dep_name)
+            // Resolve the dependency to its definition exactly as go-to-definition does
+            // from this fixture's file. A self-named dependency (a fixture overriding its
+            // parent) refers to the overridden definition, never to this fixture itself.
+            let exclude = (dep_name == &definition.name).then_some(definition);
+            if let Some(dep_def) =
+                self.fixture_db
+                    .find_closest_definition_excluding(&file_path, dep_name, exclude)
             {
                 let Some(dep_uri) = self.path_to_uri(&dep_def.file_path) else {
                     continue;
